@@ -623,7 +623,12 @@ func (e *Engine) callFn(fn *ssa.Function, args []Value, bind []Value, guard T, s
 		return e.callPure(fn, args, bind, guard)
 	}
 	if !e.noMerge && isMergeable(fn) {
-		return e.callPure(fn, args, bind, tbool(true))
+		if ok, opened := e.enterRegion(false); ok {
+			if opened {
+				defer e.leaveRegion()
+			}
+			return e.callPure(fn, args, bind, tbool(true))
+		}
 	}
 	return e.call(fn, args, bind)
 }
